@@ -651,9 +651,12 @@ func (s *Subtitles) removeUnusedRegionsAndStyles() {
 	// Loop through items
 	var usedRegions, usedStyles = make(map[string]bool), make(map[string]bool)
 
-	// A used style needs the styles it inherits from as well
+	// A used style needs the styles it inherits from as well. Identifiers are what is kept, objects are what is
+	// walked: an item may point to a style that is not the object stored under that identifier
+	var seenStyles = make(map[*Style]bool)
 	var useStyle = func(style *Style) {
-		for ; style != nil && !usedStyles[style.ID]; style = style.Style {
+		for ; style != nil && !seenStyles[style]; style = style.Style {
+			seenStyles[style] = true
 			usedStyles[style.ID] = true
 		}
 	}
@@ -682,6 +685,17 @@ func (s *Subtitles) removeUnusedRegionsAndStyles() {
 			useStyle(region.Style)
 		} else {
 			delete(s.Regions, id)
+		}
+	}
+
+	// A definition that is kept needs the styles it inherits from as well
+	for changed := true; changed; {
+		changed = false
+		for _, style := range s.Styles {
+			if usedStyles[style.ID] && !seenStyles[style] {
+				useStyle(style)
+				changed = true
+			}
 		}
 	}
 
